@@ -230,6 +230,8 @@ fn dump_manager(g: &ResourceRecordManager<'_>, entries: &mut Vec<StoreEntry>, c1
         for group in g.get_domain_resources(&root, filter) {
             for rec in group {
                 match record_key(rec) {
+                    // stray OPT pseudo-records are not part of the store model (see model.rs)
+                    Some((key, _, _, _)) if key.rtype == t::OPT => {}
                     Some((key, ttl, _cf, _)) => entries.push(StoreEntry { filter: fname.into(), key, ttl }),
                     None => c16.push(format!("store: a stored record of type {:?} cannot be serialised", rec.rdata.type_code())),
                 }
